@@ -5,9 +5,9 @@
 ParamReqs   == <<"r1", "r2", "r3">>
 ParamCfgs   == {[queue |-> "memory", batch |-> TRUE, min |-> 2, max |-> 3, timeout |-> 3, retry |-> TRUE, enq |-> FALSE],
                 [queue |-> "none", batch |-> FALSE, min |-> 0, max |-> 0, timeout |-> 3, retry |-> TRUE, enq |-> FALSE]}
-ParamAttrs  == {[n |-> 1, sc |-> "span", dl |-> 0, cancel |-> "post"],
-                [n |-> 2, sc |-> "none", dl |-> 2, cancel |-> "no"],
-                [n |-> 3, sc |-> "unsampled", dl |-> 8, cancel |-> "pre"]}
+ParamAttrs  == {[n |-> 1, sc |-> "span", dl |-> 0, cancel |-> "post", up |-> <<>>],
+                [n |-> 2, sc |-> "none", dl |-> 2, cancel |-> "no", up |-> <<>>],
+                [n |-> 3, sc |-> "unsampled", dl |-> 8, cancel |-> "pre", up |-> <<>>]}
 ParamMaxNow == 2
 ParamOuts   == {"ok", "transient"}
 =============================================================================
